@@ -431,6 +431,108 @@ run_config(const gcfg *c, int deep)
         }
 }
 
+/* ------------------------------------------------------------------ whole-chunk reads of chunked images (decided for C04) */
+/* Square images in square chunks (so that a chunk is the same set of pixels for the chunk layer and for a region read):
+   every chunk read whole with GRreadchunk in each requested interlace agrees with the pixels written and with GRreadimage of
+   the same region - in the writing session, after reopening read-write and after reopening read-only. */
+void
+C09_grchunk_case(long idx, void *ctx)
+{
+    (void)ctx;
+    static const int NM[][2] = {{4, 2}, {6, 3}, {5, 2}, {5, 3}, {4, 3}}; /* image side, chunk side */
+    int geo = (int)(idx % 5), nc = (idx / 5 % 2) ? 3 : 1, wide = (int)(idx / 10 % 2), cil = (int)(idx / 20 % 3), mode = (int)(idx / 60 % 3), comp = (int)(idx / 180 % 2);
+    int n = NM[geo][0], m = NM[geo][1], es = wide ? 2 : 1;
+    int cfg[7] = {-6, geo, nc, wide, cil, mode, comp};
+    mc_set_config(cfg, 7, "GR whole-chunk reads");
+    static const char *MN[] = {"in the writing session", "after reopening read-write", "after reopening read-only"};
+    mc_set_case("%dx%d image, %d component(s) of %d byte(s), created %s-interlaced, %dx%d chunks%s: every chunk read whole in every interlace %s", n, n, nc, es, ILN[cil], m, m,
+                comp ? " (deflate)" : "", MN[mode]);
+    vfs_remove_file(PATH);
+    int32 f = Hopen(PATH, DFACC_CREATE, 16), g = GRstart(f), dims[2] = {n, n}, st[2] = {0, 0};
+    int32 r = GRcreate(g, "img", nc, wide ? DFNT_UINT16 : DFNT_UINT8, cil, dims);
+    HDF_CHUNK_DEF cd;
+    memset(&cd, 0, sizeof cd);
+    if (comp) {
+        cd.comp.chunk_lengths[0] = cd.comp.chunk_lengths[1] = m;
+        cd.comp.comp_type           = COMP_CODE_DEFLATE;
+        cd.comp.cinfo.deflate.level = 6;
+    }
+    else
+        cd.chunk_lengths[0] = cd.chunk_lengths[1] = m;
+    if (f == FAIL || g == FAIL || r == FAIL || GRsetchunk(r, cd, comp ? (HDF_CHUNK | HDF_COMP) : HDF_CHUNK) == FAIL) {
+        mc_violation("grchunk:setup", "creating the chunked image failed");
+        return;
+    }
+    /* pixel (x,y) component k = model value; the write buffer is laid out in the image's own interlace */
+    static uint8 model[8][8][4][2], wbuf[8 * 8 * 4 * 2], cbuf[8 * 8 * 4 * 2 + 16], rbuf[8 * 8 * 4 * 2 + 16];
+    for (int y = 0; y < n; y++)
+        for (int x = 0; x < n; x++)
+            for (int k = 0; k < nc; k++) {
+                model[y][x][k][0] = (uint8)(7 + y * 29 + x * 5 + k * 71);
+                model[y][x][k][1] = (uint8)(0x40 + y + x * 3 + k);
+                memcpy(wbuf + (size_t)bufpos(cil, n, n, nc, x, y, k) * es, model[y][x][k], (size_t)es);
+            }
+    if (GRwriteimage(r, st, NULL, dims, wbuf) == FAIL) {
+        mc_violation("grchunk:write", "GRwriteimage of the whole image failed");
+        return;
+    }
+    if (mode > 0) {
+        if (GRendaccess(r) == FAIL || GRend(g) == FAIL || Hclose(f) == FAIL || (f = Hopen(PATH, mode == 1 ? DFACC_RDWR : DFACC_READ, 0)) == FAIL || (g = GRstart(f)) == FAIL ||
+            (r = GRselect(g, 0)) == FAIL) {
+            mc_violation("grchunk:reopen", "closing and reopening the file failed");
+            return;
+        }
+    }
+    int nch = (n + m - 1) / m;
+    for (int ril = 0; ril < 3; ril++) {
+        if (GRreqimageil(r, ril) == FAIL) {
+            mc_violation("grchunk:reqimageil", "GRreqimageil(%s) failed", ILN[ril]);
+            return;
+        }
+        for (int a = 0; a < nch; a++)
+            for (int b = 0; b < nch; b++) {
+                int32 org[2] = {a, b};
+                memset(cbuf, 0xEE, sizeof cbuf);
+                if (GRreadchunk(r, org, cbuf) == FAIL) {
+                    char sig[64];
+                    snprintf(sig, sizeof sig, "grchunk:readchunk-failed:%s", mode == 2 ? "read-only" : mode == 1 ? "read-write" : "same-session");
+                    mc_violation(sig, "GRreadchunk of chunk (%d,%d) failed %s", a, b, MN[mode]);
+                    return;
+                }
+                /* chunk (a,b) holds rows a*m.. (y) and columns b*m.. (x) */
+                int cw = n - b * m < m ? n - b * m : m, ch = n - a * m < m ? n - a * m : m;
+                for (int i = 0; i < ch; i++)
+                    for (int j = 0; j < cw; j++)
+                        for (int k = 0; k < nc; k++)
+                            if (memcmp(cbuf + (size_t)bufpos(ril, m, m, nc, j, i, k) * es, model[a * m + i][b * m + j][k], (size_t)es)) {
+                                mc_violation("grchunk:value", "GRreadchunk of chunk (%d,%d) with %s interlace requested: pixel (x %d, y %d) component %d reads %02x.., written %02x.. (%s)",
+                                             a, b, ILN[ril], b * m + j, a * m + i, k, cbuf[(size_t)bufpos(ril, m, m, nc, j, i, k) * es], model[a * m + i][b * m + j][k][0], MN[mode]);
+                                return;
+                            }
+                /* the same region through GRreadimage */
+                int32 rs[2] = {b * m, a * m}, rc[2] = {cw, ch};
+                memset(rbuf, 0xEE, sizeof rbuf);
+                if (GRreadimage(r, rs, NULL, rc, rbuf) == FAIL) {
+                    mc_violation("grchunk:readimage-failed", "GRreadimage of the region of chunk (%d,%d) failed %s", a, b, MN[mode]);
+                    return;
+                }
+                for (int i = 0; i < ch; i++)
+                    for (int j = 0; j < cw; j++)
+                        for (int k = 0; k < nc; k++)
+                            if (memcmp(rbuf + (size_t)bufpos(ril, cw, ch, nc, j, i, k) * es, model[a * m + i][b * m + j][k], (size_t)es)) {
+                                mc_violation("grchunk:region-value", "GRreadimage of the region of chunk (%d,%d), %s interlace: pixel (x %d, y %d) component %d differs from what was written (%s)", a,
+                                             b, ILN[ril], b * m + j, a * m + i, k, MN[mode]);
+                                return;
+                            }
+                mc_count("gr_chunks_read_whole", 1);
+            }
+    }
+    GRendaccess(r);
+    GRend(g);
+    Hclose(f);
+    mc_outcome(mc_hash_i(mc_hash_i(MC_H0, -6), idx));
+}
+
 /* ------------------------------------------------------------------ palettes */
 static void
 lut_case(long idx, void *ctx)
